@@ -164,13 +164,15 @@ def serialize(cfg: dict, stmts: list, ns: list | None = None) -> bytes:
     if cfg["integration"] == "generic":
         conv = T.stmt_to_generic
         if entry == "flat_to_file":
-            assert delimited
+            if not delimited:
+                raise ValueError("harness: this entry point always writes delimited output")
             gser.flat_stream_to_file((conv(s) for s in stmts), out, options=make_options(cfg))
         elif entry == "flat_frames":
             frames = gser.flat_stream_to_frames((conv(s) for s in stmts), options=make_options(cfg))
             write_frames(frames, out, delimited, cfg.get("collect", False))
         elif entry == "grouped_to_file":
-            assert delimited
+            if not delimited:
+                raise ValueError("harness: this entry point always writes delimited output")
             sink = generic_sink_of(stmts, ns)
             gser.grouped_stream_to_file((s for s in [sink]), out, options=make_options(cfg))
         elif entry == "stream_frames_sink":
@@ -212,13 +214,15 @@ def serialize(cfg: dict, stmts: list, ns: list | None = None) -> bytes:
             store = rdflib_store_of(stmts, ns, dataset=cfg.get("store_dataset", cfg["physical"] != 1), empty_graphs=cfg.get("empty_graphs"))
             store.serialize(out, format="jelly", options=make_options(cfg))
         elif entry == "flat_to_file":
-            assert delimited
+            if not delimited:
+                raise ValueError("harness: this entry point always writes delimited output")
             rser.flat_stream_to_file((conv(s) for s in stmts), out, options=None if cfg.get("no_options") else make_options(cfg))
         elif entry == "flat_frames":
             frames = rser.flat_stream_to_frames((conv(s) for s in stmts), options=None if cfg.get("no_options") else make_options(cfg))
             write_frames(frames, out, delimited, cfg.get("collect", False))
         elif entry == "grouped_to_file":
-            assert delimited
+            if not delimited:
+                raise ValueError("harness: this entry point always writes delimited output")
             store = rdflib_store_of(stmts, ns, dataset=cfg.get("store_dataset", cfg["physical"] != 1), empty_graphs=cfg.get("empty_graphs"))
             rser.grouped_stream_to_file((s for s in [store]), out, options=make_options(cfg))
         elif entry == "stream_frames_gen":
